@@ -68,7 +68,7 @@ def check(ctx, fx):
         n_inst += 1
         m = SM.Machine(fx, f)
         groups = SZ.group_exits(exits)
-        ctx.floor("L1", len(groups), 14, "return statements in parse_url_impl<%s>" % tag)
+        ctx.floor("L1", len(groups), 8, "return statements in parse_url_impl<%s>" % tag)
         ctx.analysed_add(ctx.config, typestate_functions=len(eng.stats["functions"]), typestate_states=eng.stats["states"])
         per_owner = {}
         for g in groups:
@@ -86,7 +86,7 @@ def check(ctx, fx):
                          "normalized-size check (classes over all paths: %s)" % (g["text"], ", ".join(sorted(g["classes"]))),
                          where=g["loc"].replace("/repo/", ""), path=path)
         chk = [c for c in mon.checks_seen]
-        ctx.floor("L1", len(chk), 2, "size-check sites evaluated in parse_url_impl<%s>" % tag)
+        ctx.floor("L1", len(chk), 1, "size-check sites evaluated in parse_url_impl<%s>" % tag)
         for fd in findings:
             if fd["kind"] == "nonstrict-compare":
                 ctx.fail("L3", "%s: %s" % (C.short(fx.fn(fd["fkey"])), fd["text"]),
@@ -170,7 +170,7 @@ def check(ctx, fx):
                               "size %s limit" % op,
                               "comparison `%s` treats size == limit as too long (or is not an ordering test): a URL of "
                               "exactly the limit must be accepted" % X.show(n), where=n.get("loc", ""))
-    ctx.floor("L3", ncmp, 24, "comparisons against the limit")
+    ctx.floor("L3", ncmp, 16, "comparisons against the limit")
 
     # ---- L4: who may call the parser ------------------------------------------------
     allowed = {"ada::parse", "ada::parser::parse_url", "ada::can_parse"}
